@@ -169,10 +169,16 @@ pub fn eval(case: &Case, st: &mut Stats) -> Result<(), String> {
         })?;
         let _ = must("finalize", || g2.finalize())?;
         must("reset", || g2.reset())?;
+        // the second life declares its size in half of the cases
+        let declare = oracle::fingerprint(&data[..data.len().min(80)]) % 2 == 0;
+        if declare {
+            let rr = must("set_fixed_input_size", || g2.set_fixed_input_size(data.len() as u64))?;
+            ensure_eq!(rr, Ok(()), "set_fixed_input_size({}) on a re-used generator", data.len());
+        }
         must("update", || {
             g2.update(&data);
         })?;
-        check_generator_output(&g2, &r, "re-used generator (after reset)")?;
+        check_generator_output(&g2, &r, if declare { "re-used generator (after reset, size declared)" } else { "re-used generator (after reset)" })?;
     }
     // a declared size (equal to what is fed) and a refused second declaration in between
     {
